@@ -218,7 +218,7 @@ func backgroundFaultFilter(p simrt.OpPoint) bool {
 		return false
 	}
 	switch p.Kind {
-	case "write", "fsync", "create", "rename":
+	case "write", "fsync", "create", "rename", "read":
 		return true
 	}
 	return false
